@@ -13,6 +13,7 @@ CONSTANTS
   PertKinds = {}
   NumSyss = {}
   RrefFlags = {}
+  MaxEvals = 3
 INVARIANT Verdict
 INVARIANT BackwardConstructionIsEquilibrium
 INVARIANT PerturbationBreaksOneClause
